@@ -1,14 +1,16 @@
 (* Judge for C08.  Cases:
-   (1 gen usage pic text val buffer emitted nav)            one elementary item
+   (1 gen usage pic text val buffer emitted nav pad)        one elementary item, first in its record
         gen      0 JSONSchemaMaker (schema_iter), 1 JSONSchemaMakerExtendedVocabulary
         pic      (0 signed m n rep_int rep_frac) | (1 alpha k rep)
         text     the PICTURE string handed to the implementation; must BE pic_text pic
         val      (0) none | (1 digits zone) zoned | (2 digits sign) packed | (3 w v) binary | (4) text bytes;
                  buffer must BE the specification's encoding (a valid record for the item)
         emitted  (0 (type contentEncoding conversion minLength maxLength)) | (1 exn)     codes: Spec/SchemaTruth.v, -1 = absent
-        nav      (0 pytype value) | (1 exn) | (2) not observed: EBCDIC().nav(schema, record).name(FLD).value()
+        nav      (0 pytype value) | (1 exn) | (2) not observed: EBCDIC().nav(schema, buffer + pad).name(FLD).value()
+        pad      the bytes that follow the item's value in the instance
    (2 tree fillers schema ext check load sites)              one record description
-        schema / ext   (0 structure) | (1 exn): standard / extended generator (wire form of JLayoutCommon)
+        schema / ext   (0 structure) | (1 exn): standard / extended generator (wire form of JLayoutCommon; the size of an
+                       elementary sub-schema is the minLength = maxLength the document states)
         check    (0) check_schema passed | (1) raised | (2) not run
         load     (0) from_json returned | (1 exn) | (2) not run
         sites    ((target (class anchor)) ...) every $ref / maxItemsDependsOn and the object it is bound to
@@ -141,14 +143,17 @@ Definition judge_field (c : sx) : sx :=
   let buffer := as_Ns (nth_sx 6 c) in
   let emitted := nth_sx 7 c in
   let nav := nth_sx 8 c in
+  let pad := as_Ns (nth_sx 9 c) in
   let nav_seen := negb (as_Z (nth_sx 0 nav) =? 2) in
   let float := is_float_spelling u in
   if negb (wf_pic p && list_N_eqb text (pic_text p)) then bad_case else
   if nav_seen && negb float && negb (record_ok u p val buffer) then bad_case else
   let m := if gen =? 0 then emit_field u p else emit_field_ext u p in
   let conv := match m with Ok f => f_conv f | Err _ => 0%N end in
-  let mnav := delivered_type u p conv buffer in
-  let mval := decode u p buffer in
+  (* the item comes first in its record: the navigation hands the decoder the first minLength bytes of the instance *)
+  let raw := match m with Ok f => firstn (N.to_nat (f_min f)) (buffer ++ pad) | Err _ => buffer end in
+  let mnav := delivered_type u p conv raw in
+  let mval := decode u p raw in
   match spec_field u p, spec_field_ext u p with
   | Some (t, e, cv, sz, py), Some (tx, szx) =>
       let good_kw := if gen =? 0 then field_is emitted t e cv sz sz else field_is emitted tx 0 0 szx szx in
@@ -190,6 +195,39 @@ Definition okey_eqb (a b : option key) : bool :=
   | _, _ => false
   end.
 
+(* the byte length the description gives an elementary item (the widths of the tree are C04's specification) *)
+Fixpoint size_of (x : item) (i : id) : option nat :=
+  match x with
+  | Elem j sz _ _ => if N.eqb i j then Some sz else None
+  | Group _ _ _ ks => size_kids ks i
+  end
+with size_kids (ks : items) (i : id) : option nat :=
+  match ks with
+  | INil => None
+  | ICons x xs => match size_of x i with Some sz => Some sz | None => size_kids xs i end
+  end.
+
+(* every elementary sub-schema with its $anchor and the length it states *)
+Fixpoint atoms_of (s : js) : list (option key * nat) :=
+  match s with
+  | JAtom a sz => [(a, sz)]
+  | JArr _ _ its => atoms_of its
+  | JOdo _ _ its => atoms_of its
+  | JObj _ ps => atoms_props ps
+  | JOne _ alts => atoms_alts alts
+  | JRef _ => []
+  end
+with atoms_props (ps : props) : list (option key * nat) :=
+  match ps with PNil => [] | PCons _ s r => atoms_of s ++ atoms_props r end
+with atoms_alts (alts : jalts) : list (option key * nat) :=
+  match alts with ANil => [] | ACons s r => atoms_of s ++ atoms_alts r end.
+
+Definition lengths_ok (t : item) (j : js) : bool :=
+  forallb (fun p => match fst p with
+                    | Some (KName i) => match size_of t i with Some sz => Nat.eqb (snd p) sz | None => false end
+                    | _ => false
+                    end) (atoms_of j).
+
 Definition sx_of_site (s : key * desc) : sx :=
   L [sx_of_key (fst s); L [A (cls_code (fst (snd s))); sx_of_anchor (snd (snd s))]].
 
@@ -209,7 +247,7 @@ Definition judge_tree (c : sx) : sx :=
     match (if obs_ok schema then js_of 400 (nth_sx 1 schema) else None) with
     | None => false
     | Some j =>
-        valid_2020_12_shape j && incl_keys (refs_of j) (anchors_of j)
+        valid_2020_12_shape j && incl_keys (refs_of j) (anchors_of j) && lengths_ok t j
         && (as_Z (nth_sx 0 check) =? 0) && (as_Z (nth_sx 0 loaded) =? 0)
         && forallb site_good sites && (length sites =? length (refs_of j))%nat
         && sx_eqb ext schema
